@@ -47,6 +47,14 @@ var helperNames = map[string]bool{"expectZeroSize": true, "discardOnKafkaError":
 	"newMessageSetReader": true, "waitResponse": true, "doRequest": true, "do": true, "readOperation": true, "writeOperation": true,
 	"readPartitionsResponse": true, "discardN": true, "read": true}
 
+// recvIdent is the name of the receiver variable ("c" if it has none).
+func recvIdent(fd *ast.FuncDecl) string {
+	if fd.Recv != nil && len(fd.Recv.List) == 1 && len(fd.Recv.List[0].Names) == 1 {
+		return fd.Recv.List[0].Names[0].Name
+	}
+	return "c"
+}
+
 func recvName(fd *ast.FuncDecl) string {
 	if fd.Recv == nil || len(fd.Recv.List) != 1 {
 		return ""
@@ -222,8 +230,8 @@ func (x *clx) stmts(owner string, list []ast.Stmt, closures map[string]string, l
 						continue
 					}
 				case *ast.Ident:
-					if lhs != nil && (lhs.Name == "remain") && (r.Name == "size" || r.Name == "sz") {
-						continue
+					if lhs != nil && s.Tok == token.ASSIGN {
+						continue // `remain = size`: copying the size counter (whatever the two are called)
 					}
 				case *ast.CallExpr:
 					if id, ok := r.Fun.(*ast.Ident); ok && id.Name == "append" {
@@ -384,11 +392,21 @@ func containsText(n ast.Node, text string) bool {
 
 // waitResponseLockFacts classifies every exit of the wait loop taken while c.rlock is held.
 func waitResponseLockFacts(fd *ast.FuncDecl) (facts map[string]bool, err error) {
-	facts = map[string]bool{"peekErr": false, "noProgress": false, "take": false, "yield": false}
+	facts = map[string]bool{"peekErr": false, "noProgress": false, "take": false, "yield": false, "leave": false, "desyncCloses": false}
+	recv := "c" // the receiver's name, whatever it is called
+	if fd.Recv != nil && len(fd.Recv.List) == 1 && len(fd.Recv.List[0].Names) == 1 {
+		recv = fd.Recv.List[0].Names[0].Name
+	}
 	var loop *ast.ForStmt
-	for _, st := range fd.Body.List {
+	for i, st := range fd.Body.List {
 		if f, ok := st.(*ast.ForStmt); ok {
 			loop = f
+			// c.leave() on the way out: a statement after the loop
+			for _, after := range fd.Body.List[i+1:] {
+				if isCallOn(after, recv, "leave") {
+					facts["leave"] = true
+				}
+			}
 		}
 	}
 	if loop == nil {
@@ -413,17 +431,18 @@ func waitResponseLockFacts(fd *ast.FuncDecl) (facts map[string]bool, err error) 
 				block := &ast.BlockStmt{List: list[:i]}
 				unlocked := false
 				for _, p := range list[:i] {
-					if isCallOn(p, "c.rlock", "Unlock") {
+					if isCallOn(p, recv+".rlock", "Unlock") {
 						unlocked = true
 					}
 				}
 				kind := ""
 				switch {
-				case containsText(block, "c.conn.Close"):
-					kind = "peekErr"
 				case containsText(block, "io.ErrNoProgress"):
 					kind = "noProgress"
-				case containsText(block, "&c.rlock"):
+					facts["desyncCloses"] = containsText(block, recv+".conn.Close")
+				case containsText(block, recv+".conn.Close"):
+					kind = "peekErr"
+				case containsText(block, "&"+recv+".rlock"):
 					kind = "take"
 					unlocked = !unlocked // handing the lock over: it must NOT be unlocked here
 				default:
@@ -432,7 +451,29 @@ func waitResponseLockFacts(fd *ast.FuncDecl) (facts map[string]bool, err error) 
 				seen[kind]++
 				facts[kind] = unlocked
 			case *ast.ReturnStmt:
-				return fmt.Errorf("waitResponse: return inside the wait loop")
+				// an exit that bypasses the code after the loop (c.leave()): classified like a break, `leave` is lost
+				facts["leave"] = false
+				block := &ast.BlockStmt{List: list[:i]}
+				unlocked := false
+				for _, p := range list[:i] {
+					if isCallOn(p, recv+".rlock", "Unlock") {
+						unlocked = true
+					}
+				}
+				switch {
+				case containsText(block, "io.ErrNoProgress"):
+					seen["noProgress"]++
+					facts["noProgress"] = unlocked
+					facts["desyncCloses"] = containsText(block, recv+".conn.Close")
+				case containsText(block, recv+".conn.Close"):
+					seen["peekErr"]++
+					facts["peekErr"] = unlocked
+				case containsText(block, "&"+recv+".rlock"):
+					seen["take"]++
+					facts["take"] = !unlocked
+				default:
+					return fmt.Errorf("waitResponse: unclassified return")
+				}
 			}
 		}
 		return nil
@@ -446,7 +487,7 @@ func waitResponseLockFacts(fd *ast.FuncDecl) (facts map[string]bool, err error) 
 		}
 	}
 	n := len(loop.Body.List)
-	facts["yield"] = n > 0 && isCallOn(loop.Body.List[n-1], "c.rlock", "Unlock")
+	facts["yield"] = n > 0 && isCallOn(loop.Body.List[n-1], recv+".rlock", "Unlock")
 	return facts, nil
 }
 
@@ -464,26 +505,33 @@ func unlockAfter(fd *ast.FuncDecl, after string, handover bool) bool {
 	if idx < 0 {
 		return false
 	}
+	// the names the function gives to the lock and the error returned by waitResponse (`_, size, lock, err := …`)
+	lockName, errName := "lock", "err"
+	if as, ok := fd.Body.List[idx].(*ast.AssignStmt); ok && len(as.Lhs) == 4 {
+		lockName, errName = exprString(as.Lhs[2]), exprString(as.Lhs[3])
+	}
 	rest := fd.Body.List[idx+1:]
 	if len(rest) > 0 { // `if err != nil { return … }` right after the call: the lock was not obtained
-		if is, ok := rest[0].(*ast.IfStmt); ok && exprString(is.Cond.(*ast.BinaryExpr).X) == "err" {
-			rest = rest[1:]
+		if is, ok := rest[0].(*ast.IfStmt); ok {
+			if be, ok := is.Cond.(*ast.BinaryExpr); ok && exprString(be.X) == errName {
+				rest = rest[1:]
+			}
 		}
 	}
 	for _, st := range rest {
 		if d, ok := st.(*ast.DeferStmt); ok {
-			if sel, ok := d.Call.Fun.(*ast.SelectorExpr); ok && sel.Sel.Name == "Unlock" && exprString(sel.X) == "lock" {
+			if sel, ok := d.Call.Fun.(*ast.SelectorExpr); ok && sel.Sel.Name == "Unlock" && exprString(sel.X) == lockName {
 				return true
 			}
 		}
-		if isCallOn(st, "lock", "Unlock") {
+		if isCallOn(st, lockName, "Unlock") {
 			return true
 		}
 		if r, ok := st.(*ast.ReturnStmt); ok {
 			if handover {
 				ok := false
 				ast.Inspect(r, func(n ast.Node) bool {
-					if kv, is := n.(*ast.KeyValueExpr); is && exprString(kv.Key) == "lock" && exprString(kv.Value) == "lock" {
+					if kv, is := n.(*ast.KeyValueExpr); is && exprString(kv.Key) == "lock" && exprString(kv.Value) == lockName {
 						ok = true
 					}
 					return true
@@ -528,9 +576,17 @@ func containsCall(n ast.Node, name string) bool {
 // batchCloseUnlocks: (*Batch).close releases the lock it holds on every path: `if lock != nil { lock.Unlock() }` is a
 // top-level statement and no return statement occurs before it.
 func batchCloseUnlocks(fd *ast.FuncDecl) bool {
+	lockName := "lock" // the local that receives batch.lock
 	for _, st := range fd.Body.List {
-		if is, ok := st.(*ast.IfStmt); ok && len(is.Body.List) >= 1 && isCallOn(is.Body.List[len(is.Body.List)-1], "lock", "Unlock") {
-			if be, ok := is.Cond.(*ast.BinaryExpr); ok && be.Op == token.NEQ && exprString(be.X) == "lock" {
+		if as, ok := st.(*ast.AssignStmt); ok && len(as.Lhs) == 1 && len(as.Rhs) == 1 {
+			if sel, ok := as.Rhs[0].(*ast.SelectorExpr); ok && sel.Sel.Name == "lock" {
+				lockName = exprString(as.Lhs[0])
+			}
+		}
+	}
+	for _, st := range fd.Body.List {
+		if is, ok := st.(*ast.IfStmt); ok && len(is.Body.List) >= 1 && isCallOn(is.Body.List[len(is.Body.List)-1], lockName, "Unlock") {
+			if be, ok := is.Cond.(*ast.BinaryExpr); ok && be.Op == token.NEQ && exprString(be.X) == lockName {
 				return true
 			}
 		}
@@ -546,6 +602,420 @@ func batchCloseUnlocks(fd *ast.FuncDecl) bool {
 		}
 	}
 	return false
+}
+
+// mergeIsStrict: in (*Response).Merge of the package in dir, the loop over `results` calls protocol.Result and, when
+// that returns an error, returns it (a `return` with a non-nil second result inside `if err != nil`).
+func mergeIsStrict(dir string) (bool, error) {
+	fset := token.NewFileSet()
+	pkgs, err := parser.ParseDir(fset, dir, func(fi os.FileInfo) bool { return !strings.HasSuffix(fi.Name(), "_test.go") }, 0)
+	if err != nil {
+		return false, err
+	}
+	for _, pkg := range pkgs {
+		for _, f := range pkg.Files {
+			for _, d := range f.Decls {
+				fd, ok := d.(*ast.FuncDecl)
+				if !ok || fd.Name.Name != "Merge" || fd.Body == nil || recvName(fd) != "Response" {
+					continue
+				}
+				strict := false
+				ast.Inspect(fd.Body, func(n ast.Node) bool {
+					rs, ok := n.(*ast.RangeStmt)
+					if !ok {
+						return true
+					}
+					sawResult := false
+					for _, st := range rs.Body.List {
+						if containsCall(st, "Result") {
+							sawResult = true
+						}
+						is, ok := st.(*ast.IfStmt)
+						if !ok || !sawResult {
+							continue
+						}
+						be, ok := is.Cond.(*ast.BinaryExpr)
+						if !ok || be.Op != token.NEQ {
+							continue
+						}
+						if y, ok := be.Y.(*ast.Ident); !ok || y.Name != "nil" {
+							continue
+						}
+						errName := exprString(be.X)
+						for _, inner := range is.Body.List {
+							if r, ok := inner.(*ast.ReturnStmt); ok && len(r.Results) == 2 && exprString(r.Results[1]) == errName {
+								strict = true
+							}
+						}
+					}
+					return true
+				})
+				return strict, nil
+			}
+		}
+	}
+	return false, fmt.Errorf("no (*Response).Merge in %s", dir)
+}
+
+// readerStackFacts reads three statements off message_reader.go:
+//
+//	[0] discard(): a loop `for X.parent != nil { X.readerStack = X.parent }` comes before the discardN call;
+//	[1] readMessageV2: `X.remain -= <batch size> - int(<limited reader>.N)` (what the codec consumed, not the batch size);
+//	[2] readMessageV1: `remain = sz - (n - int(<limited reader>.N))`.
+func readerStackFacts(file string) ([3]bool, error) {
+	var facts [3]bool
+	fset := token.NewFileSet()
+	f, err := parser.ParseFile(fset, file, nil, 0)
+	if err != nil {
+		return facts, err
+	}
+	mentionsLimitedN := func(e ast.Expr) bool {
+		found := false
+		ast.Inspect(e, func(n ast.Node) bool {
+			if sel, ok := n.(*ast.SelectorExpr); ok && sel.Sel.Name == "N" {
+				found = true
+			}
+			return true
+		})
+		return found
+	}
+	seen := 0
+	for _, d := range f.Decls {
+		fd, ok := d.(*ast.FuncDecl)
+		if !ok || fd.Body == nil || recvName(fd) != "messageSetReader" {
+			continue
+		}
+		switch fd.Name.Name {
+		case "discard":
+			seen++
+			rewound := false
+			ast.Inspect(fd.Body, func(n ast.Node) bool {
+				switch s := n.(type) {
+				case *ast.ForStmt:
+					if be, ok := s.Cond.(*ast.BinaryExpr); ok && be.Op == token.NEQ && strings.HasSuffix(exprString(be.X), ".parent") && exprString(be.Y) == "nil" {
+						for _, st := range s.Body.List {
+							if as, ok := st.(*ast.AssignStmt); ok && len(as.Lhs) == 1 && len(as.Rhs) == 1 &&
+								strings.HasSuffix(exprString(as.Lhs[0]), ".readerStack") && strings.HasSuffix(exprString(as.Rhs[0]), ".parent") {
+								rewound = true
+							}
+						}
+					}
+				case *ast.CallExpr:
+					if sel, ok := s.Fun.(*ast.SelectorExpr); ok && sel.Sel.Name == "discardN" && rewound {
+						facts[0] = true
+					}
+				}
+				return true
+			})
+		case "readMessageV2":
+			seen++
+			ast.Inspect(fd.Body, func(n ast.Node) bool {
+				if as, ok := n.(*ast.AssignStmt); ok && as.Tok == token.SUB_ASSIGN && len(as.Lhs) == 1 && strings.HasSuffix(exprString(as.Lhs[0]), ".remain") {
+					if be, ok := as.Rhs[0].(*ast.BinaryExpr); ok && be.Op == token.SUB && mentionsLimitedN(be.Y) {
+						facts[1] = true
+					}
+				}
+				return true
+			})
+		case "readMessageV1":
+			seen++
+			ast.Inspect(fd.Body, func(n ast.Node) bool {
+				if as, ok := n.(*ast.AssignStmt); ok && as.Tok == token.ASSIGN && len(as.Lhs) == 1 && len(as.Rhs) == 1 {
+					if be, ok := as.Rhs[0].(*ast.BinaryExpr); ok && be.Op == token.SUB {
+						if p, ok := be.Y.(*ast.ParenExpr); ok {
+							if in, ok := p.X.(*ast.BinaryExpr); ok && in.Op == token.SUB && mentionsLimitedN(in.Y) {
+								facts[2] = true
+							}
+						}
+					}
+				}
+				return true
+			})
+		}
+	}
+	if seen != 3 {
+		return facts, fmt.Errorf("message_reader.go: discard / readMessageV2 / readMessageV1 not all found")
+	}
+	return facts, nil
+}
+
+func quoteAll(xs []string) string {
+	q := make([]string, len(xs))
+	for i, x := range xs {
+		q[i] = fmt.Sprintf("%q", x)
+	}
+	return strings.Join(q, ", ")
+}
+
+// inlineClosers: a method of Conn (other than Close) whose body closes the network connection unconditionally — a
+// top-level statement `recv.conn.Close()` with no return / branch before it — is a "closer"; every call `x.M()` of a
+// closer in the analysed functions is rewritten to `x.conn.Close()`, so that the close rules below see through a helper
+// such as `func (c *Conn) abortRead() { c.conn.Close(); c.rbuf.Discard(…) }`.
+//
+// Returned: dropsBuffer — in do, ApiVersions and Batch.close, every block guarded by `!errors.As(err, &kafkaError)` that
+// closes the connection also drops what is left in the read buffer (`x.rbuf.Discard(x.rbuf.Buffered())`, directly or
+// through the closer): callers already in flight must not be served the rest of the broken response.
+func inlineClosers(fns map[string]*ast.FuncDecl) (dropsBuffer bool) {
+	isDrop := func(c *ast.CallExpr) bool {
+		sel, ok := c.Fun.(*ast.SelectorExpr)
+		return ok && sel.Sel.Name == "Discard" && strings.HasSuffix(exprString(sel.X), ".rbuf") && len(c.Args) == 1 && containsCall(c.Args[0], "Buffered")
+	}
+	plainCall := func(st ast.Stmt) *ast.CallExpr {
+		if es, ok := st.(*ast.ExprStmt); ok {
+			if c, ok := es.X.(*ast.CallExpr); ok {
+				return c
+			}
+		}
+		return nil
+	}
+	closers, closerDrops := map[string]bool{}, map[string]bool{}
+	for name, fd := range fns {
+		if name == "Close" || recvName(fd) != "Conn" || fd.Type.Params.NumFields() != 0 {
+			continue
+		}
+		want := recvIdent(fd) + ".conn.Close"
+		for _, st := range fd.Body.List {
+			c := plainCall(st)
+			if c == nil {
+				break // anything but a plain call before the close: not a closer
+			}
+			if len(c.Args) == 0 && exprString(c.Fun) == want {
+				closers[name] = true
+				break
+			}
+		}
+		if closers[name] {
+			for _, st := range fd.Body.List {
+				if c := plainCall(st); c != nil && isDrop(c) {
+					closerDrops[name] = true
+				}
+			}
+		}
+	}
+	// the blocks that close on non-kafka errors: do they drop the buffer too?
+	dropsBuffer = true
+	for _, name := range []string{"do", "ApiVersions", "Batch.close"} {
+		fd, found := fns[name], false
+		if fd == nil {
+			return false
+		}
+		var blks []*ast.BlockStmt
+		switch name {
+		case "ApiVersions":
+			blks = apiVersionsNonKafkaBlocks(fd)
+		case "Batch.close":
+			blks = nonKafkaBlocks(fd, true)
+		default:
+			blks = nonKafkaBlocks(fd, false)
+		}
+		for _, blk := range blks {
+			closes, drops := false, false
+			for _, st := range blk.List {
+				c := plainCall(st)
+				if c == nil {
+					continue
+				}
+				if sel, ok := c.Fun.(*ast.SelectorExpr); ok {
+					switch {
+					case closers[sel.Sel.Name] && len(c.Args) == 0:
+						closes, drops = true, drops || closerDrops[sel.Sel.Name]
+					case sel.Sel.Name == "Close":
+						closes = true
+					case isDrop(c):
+						drops = true
+					}
+				}
+			}
+			if closes {
+				found = true
+				dropsBuffer = dropsBuffer && drops
+			}
+		}
+		dropsBuffer = dropsBuffer && found
+	}
+	for _, fd := range fns {
+		ast.Inspect(fd.Body, func(n ast.Node) bool {
+			c, ok := n.(*ast.CallExpr)
+			if !ok || len(c.Args) != 0 {
+				return true
+			}
+			if sel, ok := c.Fun.(*ast.SelectorExpr); ok && closers[sel.Sel.Name] {
+				c.Fun = &ast.SelectorExpr{X: &ast.SelectorExpr{X: sel.X, Sel: ast.NewIdent("conn")}, Sel: ast.NewIdent("Close")}
+			}
+			return true
+		})
+	}
+	return dropsBuffer
+}
+
+// nonKafkaBlocks: the blocks of a function that run exactly when the error at hand is not an error reported by the
+// broker — the body of `if !errors.As(err, &k) {…}` (without else) and the else block of `if errors.As(err, &k) {…} else
+// {…}`; shortBuffer: the same with io.ErrShortBuffer set apart too (`… && !errors.Is(err, io.ErrShortBuffer)`, or
+// `errors.As(…) || errors.Is(err, io.ErrShortBuffer)` before the else).
+func nonKafkaBlocks(fd *ast.FuncDecl, shortBuffer bool) (blocks []*ast.BlockStmt) {
+	if fd == nil {
+		return nil
+	}
+	isCall := func(e ast.Expr, fn string) bool {
+		c, ok := e.(*ast.CallExpr)
+		if !ok {
+			return false
+		}
+		sel, ok := c.Fun.(*ast.SelectorExpr)
+		return ok && exprString(sel.X) == "errors" && sel.Sel.Name == fn
+	}
+	isNotCall := func(e ast.Expr, fn string) bool {
+		u, ok := e.(*ast.UnaryExpr)
+		return ok && u.Op == token.NOT && isCall(u.X, fn)
+	}
+	ast.Inspect(fd.Body, func(n ast.Node) bool {
+		s, ok := n.(*ast.IfStmt)
+		if !ok {
+			return true
+		}
+		neg, pos := false, false
+		if be, is := s.Cond.(*ast.BinaryExpr); is && shortBuffer {
+			neg = be.Op == token.LAND && isNotCall(be.X, "As") && isNotCall(be.Y, "Is") && containsText(be.Y, "io.ErrShortBuffer")
+			pos = be.Op == token.LOR && isCall(be.X, "As") && isCall(be.Y, "Is") && containsText(be.Y, "io.ErrShortBuffer")
+		} else if !shortBuffer {
+			neg, pos = isNotCall(s.Cond, "As"), isCall(s.Cond, "As")
+		}
+		if neg && s.Else == nil {
+			blocks = append(blocks, s.Body)
+		}
+		if pos {
+			if eb, ok := s.Else.(*ast.BlockStmt); ok {
+				blocks = append(blocks, eb)
+			}
+		}
+		return true
+	})
+	return blocks
+}
+
+// apiVersionsNonKafkaBlocks: ApiVersions tests `err != nil && !errors.As(err, &k)` (the error may be nil there)
+func apiVersionsNonKafkaBlocks(fd *ast.FuncDecl) (blocks []*ast.BlockStmt) {
+	blocks = nonKafkaBlocks(fd, false)
+	ast.Inspect(fd.Body, func(n ast.Node) bool {
+		s, ok := n.(*ast.IfStmt)
+		if !ok || s.Else != nil {
+			return true
+		}
+		if be, is := s.Cond.(*ast.BinaryExpr); is && be.Op == token.LAND {
+			if l, is := be.X.(*ast.BinaryExpr); is && l.Op == token.NEQ && exprString(l.Y) == "nil" {
+				if u, is := be.Y.(*ast.UnaryExpr); is && u.Op == token.NOT && containsCall(u.X, "As") {
+					blocks = append(blocks, s.Body)
+				}
+			}
+		}
+		return true
+	})
+	return blocks
+}
+
+// closesOnNonKafka: the function has exactly one such block, made of plain calls only, exactly one of them a Close (others:
+// e.g. dropping the buffered bytes), and no other call of Close on a connection.
+func closesOnNonKafka(fd *ast.FuncDecl, shortBuffer bool) bool {
+	if fd == nil {
+		return false
+	}
+	good := 0
+	for _, blk := range nonKafkaBlocks(fd, shortBuffer) {
+		n, plain := 0, true
+		for _, st := range blk.List {
+			es, is := st.(*ast.ExprStmt)
+			if !is {
+				plain = false
+				break
+			}
+			if c, is := es.X.(*ast.CallExpr); is {
+				if sel, is := c.Fun.(*ast.SelectorExpr); is && sel.Sel.Name == "Close" {
+					n++
+				}
+			} else {
+				plain = false
+			}
+		}
+		if plain && n == 1 {
+			good++
+		}
+	}
+	closes := 0
+	ast.Inspect(fd.Body, func(n ast.Node) bool {
+		if c, ok := n.(*ast.CallExpr); ok {
+			if sel, ok := c.Fun.(*ast.SelectorExpr); ok && sel.Sel.Name == "Close" {
+				closes++
+			}
+		}
+		return true
+	})
+	return good == 1 && closes == 1
+}
+
+// transportDropsFailed: in the request loop of (*conn).run, a test of the error (`if err != nil { … }` or
+// `if err == nil { … } else { … }`) whose error branch contains a break / return occurs before the first statement that
+// calls releaseConn.
+func transportDropsFailed(file string) (bool, error) {
+	fset := token.NewFileSet()
+	f, err := parser.ParseFile(fset, file, nil, 0)
+	if err != nil {
+		return false, err
+	}
+	for _, d := range f.Decls {
+		fd, ok := d.(*ast.FuncDecl)
+		if !ok || fd.Name.Name != "run" || recvName(fd) != "conn" || fd.Body == nil {
+			continue
+		}
+		var loop *ast.RangeStmt
+		for _, st := range fd.Body.List {
+			if r, ok := st.(*ast.RangeStmt); ok {
+				loop = r
+			}
+		}
+		if loop == nil {
+			return false, fmt.Errorf("(*conn).run: no range loop")
+		}
+		for _, st := range loop.Body.List {
+			if containsCall(st, "releaseConn") {
+				return false, nil // reached the release without having left the loop on an error
+			}
+			is, ok := st.(*ast.IfStmt)
+			if !ok {
+				continue
+			}
+			be, ok := is.Cond.(*ast.BinaryExpr)
+			if !ok || exprString(be.Y) != "nil" {
+				continue
+			}
+			// the branch taken on an error: the body of `if err != nil`, the else of `if err == nil`
+			var errBranch ast.Node
+			switch {
+			case be.Op == token.NEQ:
+				errBranch = is.Body
+			case be.Op == token.EQL && is.Else != nil:
+				errBranch = is.Else
+			default:
+				continue
+			}
+			leaves := false
+			ast.Inspect(errBranch, func(n ast.Node) bool {
+				switch b := n.(type) {
+				case *ast.BranchStmt:
+					leaves = leaves || b.Tok == token.BREAK
+				case *ast.ReturnStmt:
+					leaves = true
+				case *ast.FuncLit:
+					return false
+				}
+				return true
+			})
+			if leaves {
+				return true, nil
+			}
+		}
+		return false, nil
+	}
+	return false, fmt.Errorf("(*conn).run not found in transport.go")
 }
 
 func (x *clx) callOrNested(owner string, c *ast.CallExpr, closures map[string]string, locals map[string]string) (string, error) {
@@ -646,6 +1116,8 @@ func extractConnLegacy(repo, root string) error {
 	}
 	x := &clx{funcs: map[string]*ast.FuncDecl{}, structs: map[string]*ast.StructType{}, memo: map[string]string{}, busy: map[string]bool{}}
 	connFns := map[string]*ast.FuncDecl{}
+	var rbufUsers []string                   // every function of the package that touches a Conn's read buffer (`….rbuf`)
+	calledBy := map[string]map[string]bool{} // simple name of a callee → qualified names of the functions calling it
 	for _, fn := range files {
 		base := filepath.Base(fn)
 		if strings.HasSuffix(base, "_test.go") || strings.HasPrefix(base, "verif_") {
@@ -661,6 +1133,38 @@ func extractConnLegacy(repo, root string) error {
 				if dd.Body == nil {
 					continue
 				}
+				touches := false
+				ast.Inspect(dd.Body, func(n ast.Node) bool {
+					if sel, ok := n.(*ast.SelectorExpr); ok && sel.Sel.Name == "rbuf" {
+						touches = true
+					}
+					return !touches
+				})
+				qname := dd.Name.Name
+				if r := recvName(dd); r != "" {
+					qname = r + "." + qname
+				}
+				if touches {
+					rbufUsers = append(rbufUsers, qname)
+				}
+				ast.Inspect(dd.Body, func(n ast.Node) bool {
+					if c, ok := n.(*ast.CallExpr); ok {
+						callee := ""
+						switch f := c.Fun.(type) {
+						case *ast.Ident:
+							callee = f.Name
+						case *ast.SelectorExpr:
+							callee = f.Sel.Name
+						}
+						if callee != "" {
+							if calledBy[callee] == nil {
+								calledBy[callee] = map[string]bool{}
+							}
+							calledBy[callee][qname] = true
+						}
+					}
+					return true
+				})
 				if r := recvName(dd); r != "" {
 					if dd.Name.Name == "readFrom" {
 						x.funcs[r+".readFrom"] = dd
@@ -671,7 +1175,7 @@ func extractConnLegacy(repo, root string) error {
 					if r == "Batch" && dd.Name.Name == "close" {
 						connFns["Batch.close"] = dd
 					}
-				} else if dd.Name.Name == "discardOnKafkaError" || dd.Name.Name == "expectZeroSize" {
+				} else if dd.Name.Name == "discardOnKafkaError" || dd.Name.Name == "expectZeroSize" || strings.HasPrefix(dd.Name.Name, "readFetchResponseHeaderV") {
 					connFns[dd.Name.Name] = dd
 				}
 			case *ast.GenDecl:
@@ -687,9 +1191,23 @@ func extractConnLegacy(repo, root string) error {
 			}
 		}
 	}
+	dropsBuffer := inlineClosers(connFns)
 	var b strings.Builder
 	b.WriteString("-- GENERATED by /verif/go/extract (connlegacy) from /repo/*.go — do not edit\n")
-	b.WriteString("import KafkaVerif.Model.ConnOps\nnamespace KV.Gen.ConnLegacy\nopen KV.ConnOps\n\n")
+	b.WriteString("import KafkaVerif.Model.ConnOps\nimport KafkaVerif.Model.TransportConnC17\nimport KafkaVerif.Model.ReaderStack\nnamespace KV.Gen.ConnLegacy\nopen KV.ConnOps\n\n")
+	sort.Strings(rbufUsers)
+	var ru []string
+	for _, u := range rbufUsers {
+		var cs []string
+		for c := range calledBy[u[strings.LastIndex(u, ".")+1:]] {
+			if c != u {
+				cs = append(cs, c)
+			}
+		}
+		sort.Strings(cs)
+		ru = append(ru, fmt.Sprintf("(%q, [%s])", u, quoteAll(cs)))
+	}
+	fmt.Fprintf(&b, "/-- every function of package kafka that touches a Conn's read buffer (a selector `.rbuf`), with the functions of\nthe package that call it (by simple name) -/\ndef rbufUsers : List (String × List String) := [\n  %s]\n\n", strings.Join(ru, ",\n  "))
 	b.WriteString("-- `readFrom(r *bufio.Reader, size int)` methods\n")
 	var names []string
 	for _, ty := range requiredReadFrom {
@@ -812,10 +1330,107 @@ func extractConnLegacy(repo, root string) error {
 		return fmt.Errorf("untranslated: %v", err)
 	}
 	b.WriteString("/-- conn.go/batch.go: on which exit paths the Conn's read lock (rlock) is released / handed over -/\n")
-	fmt.Fprintf(&b, "def lockFacts : LockFacts := { peekErr := %v, noProgress := %v, yield := %v, take := %v, doBody := %v, apiVersions := %v, batchHandover := %v, batchClose := %v }\n\n",
-		wf["peekErr"], wf["noProgress"], wf["yield"], wf["take"], unlockAfter(connFns["do"], "waitResponse", false),
+	fmt.Fprintf(&b, "def lockFacts : LockFacts := { peekErr := %v, noProgress := %v, desyncCloses := %v, yield := %v, take := %v, leave := %v, doBody := %v, apiVersions := %v, batchHandover := %v, batchClose := %v, dropsBuffer := %v }\n\n",
+		wf["peekErr"], wf["noProgress"], wf["desyncCloses"], wf["yield"], wf["take"], wf["leave"], unlockAfter(connFns["do"], "waitResponse", false),
 		unlockAfter(connFns["ApiVersions"], "waitResponse", false), unlockAfter(connFns["ReadBatchWith"], "waitResponse", true),
-		batchCloseUnlocks(connFns["Batch.close"]))
+		batchCloseUnlocks(connFns["Batch.close"]), dropsBuffer)
+	// parsers that are not readFrom methods: read.go fetch headers, conn.go element callbacks
+	b.WriteString("-- read.go readFetchResponseHeaderV2/V5/V10\n")
+	for _, hv := range []string{"V2", "V5", "V10"} {
+		fd := connFns["readFetchResponseHeader"+hv]
+		if fd == nil {
+			return fmt.Errorf("untranslated: readFetchResponseHeader%s not found", hv)
+		}
+		t, err := translateFetchHeader(fd)
+		if err != nil {
+			return fmt.Errorf("untranslated: %v", err)
+		}
+		fmt.Fprintf(&b, "def fetchHeader%sGen : List Step := [%s]\n", hv, t)
+	}
+	b.WriteString("-- conn.go: the element callbacks of readOffset and of writeCompressedMessages (per negotiated produce version)\n")
+	if fl := findRootArray(connFns["readOffset"]); fl != nil {
+		t, err := x.callback("readOffset", fl.Body.List, 1)
+		if err != nil {
+			return fmt.Errorf("untranslated: %v", err)
+		}
+		fmt.Fprintf(&b, "def readOffsetClosureGen : List Step := [.arr [%s]]\n", t)
+	} else {
+		return fmt.Errorf("untranslated: readOffset has no readArrayWith(&c.rbuf, …) call")
+	}
+	if fl := findRootArray(connFns["writeCompressedMessages"]); fl != nil {
+		var parts []string
+		for _, v := range []int{2, 3, 7} {
+			t, err := x.callback("writeCompressedMessages", fl.Body.List, v)
+			if err != nil {
+				return fmt.Errorf("untranslated: %v", err)
+			}
+			parts = append(parts, fmt.Sprintf("(%d, [.arr [%s]])", v, t))
+		}
+		fmt.Fprintf(&b, "def produceClosureGen : List (Nat × List Step) := [%s]\n\n", strings.Join(parts, ", "))
+	} else {
+		return fmt.Errorf("untranslated: writeCompressedMessages has no readArrayWith(&c.rbuf, …) call")
+	}
+	avFn := connFns["ApiVersions"]
+	if h := connFns["readApiVersions"]; h != nil {
+		avFn = h
+	}
+	avCloses := false
+	avClose := exprString(&ast.SelectorExpr{X: &ast.SelectorExpr{X: ast.NewIdent(recvIdent(connFns["ApiVersions"])), Sel: ast.NewIdent("conn")}, Sel: ast.NewIdent("Close")})
+	for _, blk := range apiVersionsNonKafkaBlocks(connFns["ApiVersions"]) {
+		avCloses = avCloses || containsText(blk, avClose)
+	}
+	fmt.Fprintf(&b, "/-- conn.go ApiVersions closes the connection on errors that are not kafka errors -/\ndef apiVersionsClosesNonKafka : Bool := %v\n", avCloses)
+	if t, after, err := translateApiVersions(avFn); err != nil {
+		return fmt.Errorf("untranslated: %v", err)
+	} else {
+		fmt.Fprintf(&b, "-- conn.go ApiVersions (v0): the parse after waitResponse; error code checked after the parse: %v\n", after)
+		fmt.Fprintf(&b, "def apiVersionsParseGen : List Step := [%s]\ndef apiVersionsErrAfter : Bool := %v\n\n", t, after)
+	}
+	// message_reader.go: the three frame-accounting statements of the reader stack
+	rsf, err := readerStackFacts(filepath.Join(repo, "message_reader.go"))
+	if err != nil {
+		return fmt.Errorf("untranslated: %v", err)
+	}
+	fmt.Fprintf(&b, "/-- message_reader.go: discard() rewinds to the root reader; compressed v2 / v1 pushes charge `remain` with what the codec consumed -/\ndef readerStackFacts : KV.ReaderStack.Facts := { discardRewinds := %v, v2AccountsConsumed := %v, v1AccountsConsumed := %v }\n\n", rsf[0], rsf[1], rsf[2])
+	// transport.go (*conn).run: a failed exchange leaves the loop before releaseConn
+	tf, err := transportDropsFailed(filepath.Join(repo, "transport.go"))
+	if err != nil {
+		return fmt.Errorf("untranslated: %v", err)
+	}
+	fmt.Fprintf(&b, "/-- transport.go (*conn).run: `if err != nil { … break }` (for anything but ErrNoRecord) comes before the releaseConn call -/\ndef transportFacts : KV.TransportConn.TFacts := { dropFailed := %v }\n\n", tf)
+	// Merge methods of the split requests: the first failed part fails the call
+	b.WriteString("/-- protocol/<api>/(*Response).Merge returns the error of the first failed part from inside its loop over the results -/\n")
+	b.WriteString("def strictMerges : List (String × Bool) := [")
+	for i, api := range []string{"listgroups", "describegroups", "describeconfigs"} {
+		strict, err := mergeIsStrict(filepath.Join(repo, "protocol", api))
+		if err != nil {
+			return fmt.Errorf("untranslated: %v", err)
+		}
+		if i > 0 {
+			b.WriteString(", ")
+		}
+		fmt.Fprintf(&b, "(\"%s\", %v)", api, strict)
+	}
+	b.WriteString("]\n\n")
+	// ReadBatchWith: the branch taken when the high watermark equals the fetch offset discards the message set
+	skips := false
+	ast.Inspect(connFns["ReadBatchWith"].Body, func(n ast.Node) bool {
+		if is, ok := n.(*ast.IfStmt); ok {
+			if be, ok := is.Cond.(*ast.BinaryExpr); ok && be.Op == token.EQL {
+				_, xi := be.X.(*ast.Ident)
+				_, yi := be.Y.(*ast.Ident)
+				if xi && yi && containsText(is.Body, "messageSetReader") && containsCall(is.Body, "discardN") {
+					skips = true
+				}
+			}
+		}
+		return true
+	})
+	fmt.Fprintf(&b, "/-- conn.go ReadBatchWith: at the high watermark (empty reader) the message set of the response is discarded -/\ndef fetchSkipsAtWatermark : Bool := %v\n\n", skips)
+	// which errors close the connection: `if !errors.As(err, &kafkaError) { c.conn.Close() }` in do,
+	// `if !errors.As(err, &kafkaError) && !errors.Is(err, io.ErrShortBuffer) { conn.Close() }` in Batch.close
+	fmt.Fprintf(&b, "/-- (*Conn).do / (*Batch).close close the connection exactly on errors that are not kafka errors (Batch: nor io.ErrShortBuffer) -/\ndef doClosesNonKafka : Bool := %v\ndef batchClosesNonKafka : Bool := %v\n\n",
+		closesOnNonKafka(connFns["do"], false), closesOnNonKafka(connFns["Batch.close"], true))
 	b.WriteString("def callsOf (m : String) : List String := ((calls.find? (·.1 == m)).map (·.2)).getD []\n")
 	b.WriteString("def versionsOf (m : String) : List Nat := ((negotiated.find? (·.1 == m)).map (·.2)).getD []\n")
 	b.WriteString("end KV.Gen.ConnLegacy\n")
